@@ -27,8 +27,23 @@ def hit (E : List String) (st : List Step) : Bool :=
   | none => false
 
 /-- some level strictly below depth `n` on the way to `st` (or `st` itself) is excluded -/
-def blockedFrom (E : List String) (n : Nat) (st : List Step) : Bool :=
-  (List.range (st.length - n)).any (fun d => hit E (st.take (n + 1 + d)))
+def blockedFrom (H : List Step → Bool) (n : Nat) (st : List Step) : Bool :=
+  (List.range (st.length - n)).any (fun d => H (st.take (n + 1 + d)))
+
+/-- a restricted configuration `cfgX` of `cfg`: positional, same keys, and its skip test is `H` -/
+structure Restrict (cfg cfgX : DCfg) (H : List Step → Bool) : Prop where
+  zip : cfgX.zip = true
+  thr : cfgX.thrNum = 0
+  skip : ∀ st, skipSteps cfgX st = H st
+  keys : ∀ steps kvs, keysOf cfgX steps kvs = keysOf cfg steps kvs
+  priv : cfgX.ignorePrivate = cfg.ignorePrivate
+
+theorem belowThreshold_X {cfg cfgX : DCfg} {H : List Step → Bool} (h : Restrict cfg cfgX H) (a b : Nat) : belowThreshold cfgX a b = false := by
+  simp [belowThreshold, h.thr]
+
+theorem iterInOrder_X {cfg cfgX : DCfg} {H : List Step → Bool} (h : Restrict cfg cfgX H) (al : Align) (steps : List Step) (xs ys : List PyVal)
+    (pw : Unit → Result) : iterInOrder cfgX al steps xs ys pw = pw () := by
+  simp [iterInOrder, h.zip]
 
 theorem skipSteps_hit {cfg : DCfg} (h : Pos cfg) (E : List String) (st : List Step) :
     skipSteps (withExclude cfg E) st = hit E st := by
@@ -243,8 +258,8 @@ end
 /-! ### the restricted tree is the filtered unrestricted tree -/
 
 
-theorem blockedFrom_child (E : List String) (n : Nat) (st es : List Step) (hl : st.length = n + 1) (hpre : st <+: es) :
-    blockedFrom E n es = (hit E st || blockedFrom E (n + 1) es) := by
+theorem blockedFrom_child (H : List Step → Bool) (n : Nat) (st es : List Step) (hl : st.length = n + 1) (hpre : st <+: es) :
+    blockedFrom H n es = (H st || blockedFrom H (n + 1) es) := by
   obtain ⟨rest, rfl⟩ := hpre
   unfold blockedFrom
   have h1 : (st ++ rest).length - n = rest.length + 1 := by rw [List.length_append, hl]; omega
@@ -259,46 +274,46 @@ theorem blockedFrom_child (E : List String) (n : Nat) (st es : List Step) (hl : 
     congr 2
     omega
 
-theorem blockedFrom_level (E : List String) (steps : List Step) : blockedFrom E steps.length steps = false := by
+theorem blockedFrom_level (H : List Step → Bool) (steps : List Step) : blockedFrom H steps.length steps = false := by
   simp [blockedFrom]
 
-theorem blockedFrom_snoc (E : List String) (steps : List Step) (s : Step) :
-    blockedFrom E steps.length (steps ++ [s]) = hit E (steps ++ [s]) := by
-  rw [blockedFrom_child E steps.length (steps ++ [s]) (steps ++ [s]) (by simp) (List.prefix_refl _)]
-  have : blockedFrom E (steps.length + 1) (steps ++ [s]) = false := by simp [blockedFrom]
+theorem blockedFrom_snoc (H : List Step → Bool) (steps : List Step) (s : Step) :
+    blockedFrom H steps.length (steps ++ [s]) = H (steps ++ [s]) := by
+  rw [blockedFrom_child H steps.length (steps ++ [s]) (steps ++ [s]) (by simp) (List.prefix_refl _)]
+  have : blockedFrom H (steps.length + 1) (steps ++ [s]) = false := by simp [blockedFrom]
   rw [this, Bool.or_false]
 
 /-- the filter of the restricted run: the entry's own path is not excluded -/
-def fX (E : List String) : Cat × Level → Bool := fun e => !hit E e.2.steps
+def fX (H : List Step → Bool) : Cat × Level → Bool := fun e => !H e.2.steps
 /-- the filter applied to the unrestricted run below depth `n`: no level on the way is excluded -/
-def f0 (E : List String) (n : Nat) : Cat × Level → Bool := fun e => !blockedFrom E n e.2.steps
+def f0 (H : List Step → Bool) (n : Nat) : Cat × Level → Bool := fun e => !blockedFrom H n e.2.steps
 
-theorem agree_child (E : List String) (steps : List Step) (s : Step) (e : Cat × Level) (he : e.2.steps = steps ++ [s]) :
-    fX E e = f0 E steps.length e := by
+theorem agree_child (H : List Step → Bool) (steps : List Step) (s : Step) (e : Cat × Level) (he : e.2.steps = steps ++ [s]) :
+    fX H e = f0 H steps.length e := by
   simp only [fX, f0, he, blockedFrom_snoc]
 
-theorem keep_level (E : List String) (steps : List Step) (hns : hit E steps = false) (e : Cat × Level) (he : e.2.steps = steps) :
-    fX E e = true ∧ f0 E steps.length e = true := by
+theorem keep_level (H : List Step → Bool) (steps : List Step) (hns : H steps = false) (e : Cat × Level) (he : e.2.steps = steps) :
+    fX H e = true ∧ f0 H steps.length e = true := by
   simp only [fX, f0, he, hns, blockedFrom_level, Bool.not_false, and_self]
 
-theorem filter_child (E : List String) (n : Nat) (st : List Step) (hl : st.length = n + 1) (t : Tree)
+theorem filter_child (H : List Step → Bool) (n : Nat) (st : List Step) (hl : st.length = n + 1) (t : Tree)
     (hpre : ∀ e ∈ t, st <+: e.2.steps) :
-    t.filter (f0 E n) = if hit E st then [] else t.filter (f0 E (n + 1)) := by
+    t.filter (f0 H n) = if H st then [] else t.filter (f0 H (n + 1)) := by
   split
   · rename_i hh
     rw [List.filter_eq_nil_iff]
     intro e he
-    simp [f0, blockedFrom_child E n st e.2.steps hl (hpre e he), hh]
+    simp [f0, blockedFrom_child H n st e.2.steps hl (hpre e he), hh]
   · rename_i hh
     apply List.filter_congr
     intro e he
-    simp [f0, blockedFrom_child E n st e.2.steps hl (hpre e he), hh]
+    simp [f0, blockedFrom_child H n st e.2.steps hl (hpre e he), hh]
 
-theorem filter_level (E : List String) (steps : List Step) (hns : hit E steps = false) (t : Tree)
-    (ht : ∀ e ∈ t, e.2.steps = steps) : t.filter (fX E) = t.filter (f0 E steps.length) := by
+theorem filter_level (H : List Step → Bool) (steps : List Step) (hns : H steps = false) (t : Tree)
+    (ht : ∀ e ∈ t, e.2.steps = steps) : t.filter (fX H) = t.filter (f0 H steps.length) := by
   rw [List.filter_eq_self.2, List.filter_eq_self.2]
-  · intro e he; exact (keep_level E steps hns e (ht e he)).2
-  · intro e he; exact (keep_level E steps hns e (ht e he)).1
+  · intro e he; exact (keep_level H steps hns e (ht e he)).2
+  · intro e he; exact (keep_level H steps hns e (ht e he)).1
 
 theorem leaf_level (steps : List Step) (a b : PyVal) :
     ∀ e ∈ (if typeName a != typeName b then (⟨[(.typeChanges, { steps := steps, t1 := some a, t2 := some b })], []⟩ : Result)
@@ -350,67 +365,67 @@ theorem foldl_rel2 {f1 f2 : Cat × Level → Bool} {c1 c2 : List (PyVal × Resul
     · rw [h1, h2]
       simp only [Result.append_def, List.filter_append, ha, hr]
 
-theorem child_rel {cfg : DCfg} (hp : Pos cfg) (E : List String) (al : Align) (hashOf : PyVal → String)
+theorem child_rel {cfg : DCfg} (cfgX : DCfg) (hp : Pos cfg) (H : List Step → Bool) (al : Align) (hashOf : PyVal → String)
     (steps : List Step) (s : Step) (v1 v2 : PyVal)
-    (IH : hit E (steps ++ [s]) = false →
-      (diffV (withExclude cfg E) al hashOf (steps ++ [s]) v1 v2).tree.filter (fX E) =
-      (diffV cfg al hashOf (steps ++ [s]) v1 v2).tree.filter (f0 E (steps ++ [s]).length)) :
-    (if hit E (steps ++ [s]) = true then ({} : Result) else diffV (withExclude cfg E) al hashOf (steps ++ [s]) v1 v2).tree.filter (fX E) =
-      (diffV cfg al hashOf (steps ++ [s]) v1 v2).tree.filter (f0 E steps.length) := by
-  rw [filter_child E steps.length (steps ++ [s]) (by simp) _ (pre_V hp al hashOf v1 v2 _)]
-  by_cases hh : hit E (steps ++ [s]) = true
+    (IH : H (steps ++ [s]) = false →
+      (diffV (cfgX) al hashOf (steps ++ [s]) v1 v2).tree.filter (fX H) =
+      (diffV cfg al hashOf (steps ++ [s]) v1 v2).tree.filter (f0 H (steps ++ [s]).length)) :
+    (if H (steps ++ [s]) = true then ({} : Result) else diffV (cfgX) al hashOf (steps ++ [s]) v1 v2).tree.filter (fX H) =
+      (diffV cfg al hashOf (steps ++ [s]) v1 v2).tree.filter (f0 H steps.length) := by
+  rw [filter_child H steps.length (steps ++ [s]) (by simp) _ (pre_V hp al hashOf v1 v2 _)]
+  by_cases hh : H (steps ++ [s]) = true
   · simp only [hh, if_true]
     rfl
-  · have hh' : hit E (steps ++ [s]) = false := by simpa using hh
+  · have hh' : H (steps ++ [s]) = false := by simpa using hh
     simp only [hh', Bool.false_eq_true, if_false]
     have := IH hh'
     simpa using this
 
 set_option maxHeartbeats 1000000 in
 mutual
-theorem filt_V {cfg : DCfg} (hp : Pos cfg) (he0 : cfg.exclude = []) (E : List String) (al : Align) (hashOf : PyVal → String) :
-    ∀ (a b : PyVal) (steps : List Step), hit E steps = false →
-      (diffV (withExclude cfg E) al hashOf steps a b).tree.filter (fX E) = (diffV cfg al hashOf steps a b).tree.filter (f0 E steps.length)
+theorem filt_V {cfg cfgX : DCfg} {H : List Step → Bool} (hp : Pos cfg) (he0 : cfg.exclude = []) (hR : Restrict cfg cfgX H) (al : Align) (hashOf : PyVal → String) :
+    ∀ (a b : PyVal) (steps : List Step), H steps = false →
+      (diffV (cfgX) al hashOf steps a b).tree.filter (fX H) = (diffV cfg al hashOf steps a b).tree.filter (f0 H steps.length)
   | .dict kvs1, b, steps, hns => by
     cases b with
     | dict kvs2 =>
-      have hrel := filt_P hp he0 E al hashOf kvs1 kvs2 (keysOf cfg steps kvs2) steps hns
+      have hrel := filt_P hp he0 hR al hashOf kvs1 kvs2 (keysOf cfg steps kvs2) steps hns
       unfold diffV
-      simp only [belowThreshold_pos hp, belowThreshold_pos (pos_withExclude hp E), keysOf_withExclude hp, Bool.false_eq_true, if_false,
+      simp only [belowThreshold_pos hp, belowThreshold_X hR, hR.keys, Bool.false_eq_true, if_false,
         Result.append_def, List.filter_append]
       congr 1
       · congr 1
         · apply List.filter_congr
           intro e he
           obtain ⟨k, _, rfl⟩ := List.mem_map.1 he
-          exact agree_child E steps _ _ rfl
+          exact agree_child H steps _ _ rfl
         · apply List.filter_congr
           intro e he
           obtain ⟨k, _, rfl⟩ := List.mem_map.1 he
-          exact agree_child E steps _ _ rfl
+          exact agree_child H steps _ _ rfl
       · exact foldl_rel2 hrel _ _ (fun _ _ => rfl) (fun _ _ => rfl) _ _ _ rfl
     | _ =>
       all_goals (
         simp only [diffV]
-        exact filter_level E steps hns _ (by intro e he; simp only [List.mem_singleton] at he; subst he; rfl))
+        exact filter_level H steps hns _ (by intro e he; simp only [List.mem_singleton] at he; subst he; rfl))
   | .list xs, b, steps, hns => by
     cases b with
     | list ys =>
-      simp only [diffV, iterInOrder_pos hp, iterInOrder_pos (pos_withExclude hp E)]
-      exact filt_L hp he0 E al hashOf xs ys steps 0 hns
+      simp only [diffV, iterInOrder_pos hp, iterInOrder_X hR]
+      exact filt_L hp he0 hR al hashOf xs ys steps 0 hns
     | _ =>
       all_goals (
         simp only [diffV]
-        exact filter_level E steps hns _ (by intro e he; simp only [List.mem_singleton] at he; subst he; rfl))
+        exact filter_level H steps hns _ (by intro e he; simp only [List.mem_singleton] at he; subst he; rfl))
   | .tuple xs, b, steps, hns => by
     cases b with
     | tuple ys =>
-      simp only [diffV, iterInOrder_pos hp, iterInOrder_pos (pos_withExclude hp E)]
-      exact filt_L hp he0 E al hashOf xs ys steps 0 hns
+      simp only [diffV, iterInOrder_pos hp, iterInOrder_X hR]
+      exact filt_L hp he0 hR al hashOf xs ys steps 0 hns
     | _ =>
       all_goals (
         simp only [diffV]
-        exact filter_level E steps hns _ (by intro e he; simp only [List.mem_singleton] at he; subst he; rfl))
+        exact filter_level H steps hns _ (by intro e he; simp only [List.mem_singleton] at he; subst he; rfl))
   | .set xs, b, steps, hns => by
     cases b with
     | set ys =>
@@ -418,11 +433,11 @@ theorem filt_V {cfg : DCfg} (hp : Pos cfg) (he0 : cfg.exclude = []) (E : List St
       apply List.filter_congr
       intro e he
       simp only [diffSet, List.mem_append, List.mem_map] at he
-      rcases he with ⟨y, _, rfl⟩ | ⟨x, _, rfl⟩ <;> exact agree_child E steps _ _ rfl
+      rcases he with ⟨y, _, rfl⟩ | ⟨x, _, rfl⟩ <;> exact agree_child H steps _ _ rfl
     | _ =>
       all_goals (
         simp only [diffV]
-        exact filter_level E steps hns _ (by intro e he; simp only [List.mem_singleton] at he; subst he; rfl))
+        exact filter_level H steps hns _ (by intro e he; simp only [List.mem_singleton] at he; subst he; rfl))
   | .frozenset xs, b, steps, hns => by
     cases b with
     | frozenset ys =>
@@ -430,75 +445,122 @@ theorem filt_V {cfg : DCfg} (hp : Pos cfg) (he0 : cfg.exclude = []) (E : List St
       apply List.filter_congr
       intro e he
       simp only [diffSet, List.mem_append, List.mem_map] at he
-      rcases he with ⟨y, _, rfl⟩ | ⟨x, _, rfl⟩ <;> exact agree_child E steps _ _ rfl
+      rcases he with ⟨y, _, rfl⟩ | ⟨x, _, rfl⟩ <;> exact agree_child H steps _ _ rfl
     | _ =>
       all_goals (
         simp only [diffV]
-        exact filter_level E steps hns _ (by intro e he; simp only [List.mem_singleton] at he; subst he; rfl))
+        exact filter_level H steps hns _ (by intro e he; simp only [List.mem_singleton] at he; subst he; rfl))
   | .none, b, steps, hns => by
     simp only [diffV]
-    exact filter_level E steps hns _ (leaf_level steps _ b)
+    exact filter_level H steps hns _ (leaf_level steps _ b)
   | .bool _, b, steps, hns => by
     simp only [diffV]
-    exact filter_level E steps hns _ (leaf_level steps _ b)
+    exact filter_level H steps hns _ (leaf_level steps _ b)
   | .int _, b, steps, hns => by
     simp only [diffV]
-    exact filter_level E steps hns _ (leaf_level steps _ b)
+    exact filter_level H steps hns _ (leaf_level steps _ b)
   | .float _ _, b, steps, hns => by
     simp only [diffV]
-    exact filter_level E steps hns _ (leaf_level steps _ b)
+    exact filter_level H steps hns _ (leaf_level steps _ b)
   | .str _, b, steps, hns => by
     simp only [diffV]
-    exact filter_level E steps hns _ (leaf_level steps _ b)
+    exact filter_level H steps hns _ (leaf_level steps _ b)
   | .bytes _, b, steps, hns => by
     simp only [diffV]
-    exact filter_level E steps hns _ (leaf_level steps _ b)
-theorem filt_P {cfg : DCfg} (hp : Pos cfg) (he0 : cfg.exclude = []) (E : List String) (al : Align) (hashOf : PyVal → String) :
-    ∀ (kvs1 kvs2 : List (PyVal × PyVal)) (k2s : List PyVal) (steps : List Step), hit E steps = false →
-      Rel2 (fX E) (f0 E steps.length) (diffKVs (withExclude cfg E) al hashOf steps kvs1 kvs2 k2s) (diffKVs cfg al hashOf steps kvs1 kvs2 k2s)
+    exact filter_level H steps hns _ (leaf_level steps _ b)
+theorem filt_P {cfg cfgX : DCfg} {H : List Step → Bool} (hp : Pos cfg) (he0 : cfg.exclude = []) (hR : Restrict cfg cfgX H) (al : Align) (hashOf : PyVal → String) :
+    ∀ (kvs1 kvs2 : List (PyVal × PyVal)) (k2s : List PyVal) (steps : List Step), H steps = false →
+      Rel2 (fX H) (f0 H steps.length) (diffKVs (cfgX) al hashOf steps kvs1 kvs2 k2s) (diffKVs cfg al hashOf steps kvs1 kvs2 k2s)
   | [], _, _, _, _ => by simp only [diffKVs]; exact Rel2.nil
   | (k1, v1) :: rest, kvs2, k2s, steps, hns => by
-    have ih := filt_P hp he0 E al hashOf rest kvs2 k2s steps hns
+    have ih := filt_P hp he0 hR al hashOf rest kvs2 k2s steps hns
     simp only [diffKVs]
-    have hpriv : (withExclude cfg E).ignorePrivate = cfg.ignorePrivate := rfl
-    rw [hpriv]
+    rw [hR.priv]
     split
     · exact ih
     · split
       · split
         · apply Rel2.cons _ _ _ _ _ _ ih
-          rw [skipSteps_hit hp, skipSteps_none hp he0]
+          rw [hR.skip, skipSteps_none hp he0]
           simp only [Bool.false_eq_true, if_false]
-          exact child_rel hp E al hashOf steps _ v1 _ (fun hh' => filt_V hp he0 E al hashOf v1 _ _ hh')
+          exact child_rel cfgX hp H al hashOf steps _ v1 _ (fun hh' => filt_V hp he0 hR al hashOf v1 _ _ hh')
         · exact ih
       · exact ih
-theorem filt_L {cfg : DCfg} (hp : Pos cfg) (he0 : cfg.exclude = []) (E : List String) (al : Align) (hashOf : PyVal → String) :
-    ∀ (xs ys : List PyVal) (steps : List Step) (i : Nat), hit E steps = false →
-      (diffPairs (withExclude cfg E) al hashOf steps i xs ys).tree.filter (fX E) =
-      (diffPairs cfg al hashOf steps i xs ys).tree.filter (f0 E steps.length)
+theorem filt_L {cfg cfgX : DCfg} {H : List Step → Bool} (hp : Pos cfg) (he0 : cfg.exclude = []) (hR : Restrict cfg cfgX H) (al : Align) (hashOf : PyVal → String) :
+    ∀ (xs ys : List PyVal) (steps : List Step) (i : Nat), H steps = false →
+      (diffPairs (cfgX) al hashOf steps i xs ys).tree.filter (fX H) =
+      (diffPairs cfg al hashOf steps i xs ys).tree.filter (f0 H steps.length)
   | [], [], _, _, _ => by simp [diffPairs]
   | x :: xs, [], steps, i, hns => by
-    have ih := filt_L hp he0 E al hashOf xs [] steps (i + 1) hns
+    have ih := filt_L hp he0 hR al hashOf xs [] steps (i + 1) hns
     simp only [diffPairs, Result.append_def, List.filter_append, ih]
     congr 1
     apply List.filter_congr
     intro e he
     simp only [List.mem_singleton] at he
     subst he
-    exact agree_child E steps _ _ rfl
+    exact agree_child H steps _ _ rfl
   | [], y :: ys, steps, i, hns => by
     simp only [diffPairs]
     apply List.filter_congr
     intro e he
     simp only [List.mem_cons, List.mem_map] at he
-    rcases he with rfl | ⟨p, _, rfl⟩ <;> exact agree_child E steps _ _ rfl
+    rcases he with rfl | ⟨p, _, rfl⟩ <;> exact agree_child H steps _ _ rfl
   | x :: xs, y :: ys, steps, i, hns => by
-    have ih := filt_L hp he0 E al hashOf xs ys steps (i + 1) hns
+    have ih := filt_L hp he0 hR al hashOf xs ys steps (i + 1) hns
     simp only [diffPairs, Result.append_def, List.filter_append, ih]
     congr 1
-    rw [skipSteps_hit hp, skipSteps_none hp he0]
+    rw [hR.skip, skipSteps_none hp he0]
     simp only [Bool.false_eq_true, if_false]
-    exact child_rel hp E al hashOf steps _ x y (fun hh' => filt_V hp he0 E al hashOf x y _ hh')
+    exact child_rel cfgX hp H al hashOf steps _ x y (fun hh' => filt_V hp he0 hR al hashOf x y _ hh')
 end
+
+/-- `exclude_paths = E` is a restriction whose skip test is `hit E` -/
+theorem restrict_exclude {cfg : DCfg} (hp : Pos cfg) (E : List String) : Restrict cfg (withExclude cfg E) (hit E) :=
+  ⟨hp.zip, hp.thr, skipSteps_hit hp E, keysOf_withExclude hp E, rfl⟩
+
+/-! ### anchored `exclude_regex_paths`, alone and together with `exclude_paths` -/
+
+/-- the same configuration with `exclude_regex_paths = [^<p>(\[|$) for p in R]` and `exclude_paths = E` -/
+def withBoth (cfg : DCfg) (E R : List String) : DCfg := { cfg with exclude := E, excludePrefix := R }
+
+/-- the level's path is at or below one of the anchored patterns (as text: equal, or continued by `[`) -/
+def hitR (R : List String) (st : List Step) : Bool :=
+  R.any (fun pre => (pathStr st false).getD "None" == pre || ((pathStr st false).getD "None").startsWith (pre ++ "["))
+
+theorem skipSteps_both {cfg : DCfg} (h : Pos cfg) (E R : List String) (st : List Step) :
+    skipSteps (withBoth cfg E R) st = (hitR R st || hit E st) := by
+  unfold skipSteps skipPath hit hitR withBoth
+  simp only [h.inc, List.isEmpty_nil, Bool.not_true, Bool.false_and, Bool.false_eq_true, if_false]
+  cases hp : pathStr st false with
+  | none =>
+    cases R with
+    | nil => simp
+    | cons r R =>
+      simp only [List.isEmpty_cons, Bool.not_false, Bool.true_and, Option.getD_none, Option.isSome_none, Bool.and_false, Bool.false_and,
+        Bool.or_false]
+      split
+      · rename_i h1; rw [h1]
+      · rename_i h1; simp only [Bool.not_eq_true] at h1; rw [h1]
+  | some p =>
+    cases R with
+    | nil => cases E <;> simp
+    | cons r R =>
+      simp only [List.isEmpty_cons, Bool.not_false, Bool.true_and, Option.getD_some, Option.isSome_some, Bool.and_true]
+      split
+      · rename_i h1; rw [h1]; simp
+      · rename_i h1; simp only [Bool.not_eq_true] at h1; rw [h1]; cases E <;> simp
+
+theorem keysOf_withBoth {cfg : DCfg} (h : Pos cfg) (E R : List String) (steps : List Step) (kvs : List (PyVal × PyVal)) :
+    keysOf (withBoth cfg E R) steps kvs = keysOf cfg steps kvs := by
+  have h' : (withBoth cfg E R).incl = [] := h.inc
+  simp only [keysOf, skipKey_pos h]
+  simp only [skipKey, h', List.isEmpty_nil, if_true]
+  rfl
+
+/-- `exclude_paths = E` together with anchored `exclude_regex_paths = R` is a restriction whose skip test is `hitR R || hit E` -/
+theorem restrict_both {cfg : DCfg} (hp : Pos cfg) (E R : List String) :
+    Restrict cfg (withBoth cfg E R) (fun st => hitR R st || hit E st) :=
+  ⟨hp.zip, hp.thr, skipSteps_both hp E R, keysOf_withBoth hp E R, rfl⟩
 
 end Diff
